@@ -43,6 +43,28 @@ func Build(verifDir, tier string) ([]*Generated, error) {
 	gen := filepath.Join(scratchRoot, "gen-v2")
 	cmd := exec.Command("go", "build", "-o", gen, ".")
 	cmd.Dir = filepath.Join(verifDir, "gen", "v2")
+	if core.RepoRoot != "/repo" {
+		// development (-repo): the harness module names /repo/v2 in its replace directive; build a copy that names the
+		// tree being analysed
+		alt := filepath.Join(scratchRoot, "gen-src")
+		if err := os.MkdirAll(alt, 0o755); err != nil {
+			return nil, &core.LoadError{Msg: err.Error()}
+		}
+		for _, f := range []string{"go.mod", "go.sum", "main.go"} {
+			// (main.go reads VERIF_REPO for the go.mod of the generated modules)
+			b, err := os.ReadFile(filepath.Join(cmd.Dir, f))
+			if err != nil {
+				return nil, &core.LoadError{Msg: err.Error()}
+			}
+			if f == "go.mod" {
+				b = []byte(strings.Replace(string(b), "=> /repo/v2", "=> "+filepath.Join(core.RepoRoot, "v2"), 1))
+			}
+			if err := os.WriteFile(filepath.Join(alt, f), b, 0o644); err != nil {
+				return nil, &core.LoadError{Msg: err.Error()}
+			}
+		}
+		cmd.Dir = alt
+	}
 	cmd.Env = core.Env()
 	if out, err := cmd.CombinedOutput(); err != nil {
 		return nil, &core.LoadError{Msg: "the generator harness does not build against the current tree (the generator packages of /repo/v2 do not compile):\n" + string(out)}
